@@ -292,6 +292,24 @@ Theorem c08_end_to_end_unloaded : forall p ents, u64_ents ents ->
 Proof. exact unloaded_end_to_end. Qed.
 Print Assumptions c08_end_to_end_unloaded.
 
+(* symbol-file FUNC and STACK CFI INIT records (value = the whole record, any type with a decidable equality): filed
+   only if memory_range() exists, then the parser-local builder.  A lookup returns a record of the file with
+   address <= x < address + size (no overflow); a record no other ranged record intersects is found everywhere in it. *)
+Theorem c08_end_to_end_records :
+  forall (V : Type) (eqb : V -> V -> bool) (mr : profile -> Z -> Z -> outcome (option range)),
+  (forall a b, eqb a b = true <-> a = b) ->
+  In mr [g_mr_Function; g_mr_StackInfoCfi] ->
+  forall p (recs : list (Z * Z * V)), u64_recs recs ->
+  exists t, g_record_table eqb (mr p) recs = Ret t /\
+    StronglySorted (fun a b => snd (fst a) < fst (fst b)) t /\
+    (forall x v, rm_get t x = Some v ->
+       exists b s, In (b, s, v) recs /\ s <> 0 /\ b + s < two64 /\ b <= x < b + s) /\
+    (forall r1 b s v r2 x, recs = r1 ++ (b, s, v) :: r2 -> s <> 0 -> b + s < two64 -> b <= x < b + s ->
+       (forall b' s' v', In (b', s', v') (r1 ++ r2) -> s' = 0 \/ two64 <= b' + s' \/ b' + s' <= b \/ b + s <= b') ->
+       rm_get t x = Some v).
+Proof. exact records_end_to_end. Qed.
+Print Assumptions c08_end_to_end_records.
+
 (* ---- non-vacuity: the hypotheses are met by concrete, non-trivial inputs ---- *)
 Example c08_nonvacuous_wf :
   wf_entries [(mk_range 18446744073709551610 6, 1); (mk_range 0 0, 2); (mk_range 5 10, 3);
